@@ -1,6 +1,7 @@
 package props
 
 import (
+	"io"
 	"sync"
 
 	"github.com/ipld/go-ipld-prime"
@@ -107,6 +108,9 @@ func selectorData() []namedNode {
 		{`"e+U+0301+xy"`, nStr("e\u0301xy")},
 		{`"U+1F600,a,U+0301,b,c"`, nStr("\U0001F600a\u0301bc")},
 		{`{a:"U+1F600,U+1F601,x"}`, nMap(kv{"a", nStr("\U0001F600\U0001F601x")})},
+		// bytes whose node also offers a streaming reader (datamodel.LargeBytesNode) that delivers at most 3 bytes per Read
+		{"bytes(0..12)-in-blocks-of-3", blockBytes{Node: nBytes([]byte{0, 1, 2, 3, 4, 5, 6, 7, 8, 9, 10, 11, 12}), data: []byte{0, 1, 2, 3, 4, 5, 6, 7, 8, 9, 10, 11, 12}}},
+		{"{a:bytes(1..8)-in-blocks-of-3}", nMap(kv{"a", blockBytes{Node: nBytes([]byte{1, 2, 3, 4, 5, 6, 7, 8}), data: []byte{1, 2, 3, 4, 5, 6, 7, 8}}})},
 		// schema-typed values (bindnode): what counts is the node interface - a struct is a map of its fields whatever its wire form
 		{"typed-struct-as-tuple{a:1,b:xy}", typedNodes().tup},
 		{"typed-struct-as-joined-string{a:p,b:q}", typedNodes().sj},
@@ -142,3 +146,42 @@ var typedOnce = sync.OnceValue(func() typedSet {
 })
 
 func typedNodes() typedSet { return typedOnce() }
+
+// blockBytes is a bytes node that also implements datamodel.LargeBytesNode with a reader that returns short reads
+// (at most 3 bytes per call), like content stored in blocks.
+type blockBytes struct {
+	datamodel.Node
+	data []byte
+}
+
+type blockReader struct {
+	data []byte
+	pos  int64
+}
+
+func (r *blockReader) Read(p []byte) (int, error) {
+	if r.pos >= int64(len(r.data)) {
+		return 0, io.EOF
+	}
+	n := len(p)
+	if n > 3 {
+		n = 3
+	}
+	n = copy(p[:n], r.data[r.pos:])
+	r.pos += int64(n)
+	return n, nil
+}
+
+func (r *blockReader) Seek(off int64, whence int) (int64, error) {
+	switch whence {
+	case io.SeekStart:
+		r.pos = off
+	case io.SeekCurrent:
+		r.pos += off
+	case io.SeekEnd:
+		r.pos = int64(len(r.data)) + off
+	}
+	return r.pos, nil
+}
+
+func (b blockBytes) AsLargeBytes() (io.ReadSeeker, error) { return &blockReader{data: b.data}, nil }
